@@ -798,6 +798,46 @@ async fn join_after_stop_twice() -> String {
     )
 }
 
+/// a join future that is created and dropped before it was ever polled takes nothing with it
+async fn join_future_dropped_unpolled() -> String {
+    let c = claim(75);
+    let mut o = Spawnable::spawn_owning(Probe::<75>::new());
+    let _ = o.send(Push(1)).await;
+    drop(o.join());
+    let alive = alive(o.as_addr()).await;
+    let mut a = o.to_addr();
+    let s = full(&a.stop());
+    let w = full(&a.await);
+    let j1 = state_of(o.join().await);
+    let j2 = state_of(o.join().await);
+    format!("alive_after_dropped_join={alive} stop={s} await={w} join={j1} join2={j2} {}", c.life())
+}
+
+/// of two join futures it is the one polled first that gets the actor, not the one created first
+async fn join_futures_awaited_in_reverse() -> String {
+    let c = claim(76);
+    let mut o = hannibal::build(Probe::<76>::new()).bounded(4).spawn_owning();
+    let _ = o.send(Push(5)).await;
+    let j1 = o.join();
+    let j2 = o.join();
+    let mut a = o.to_addr();
+    let s = full(&a.stop());
+    let w = full(&a.await);
+    let r2 = state_of(j2.await);
+    let r1 = state_of(j1.await);
+    format!("stop={s} await={w} second_created_awaited_first={r2} first_created_awaited_second={r1} {}", c.life())
+}
+
+/// consume after a join future was created and dropped unpolled
+async fn consume_after_dropped_join() -> String {
+    let c = claim(77);
+    let mut o = Spawnable::spawn_owning(Probe::<77>::new());
+    let _ = o.send(Push(3)).await;
+    drop(o.join());
+    let r = o.consume().await.map(|p| p.state.clone());
+    format!("consume={} {}", short(&r), c.life())
+}
+
 async fn join_failed_start() -> String {
     let c = claim(71);
     let mut o = Spawnable::spawn_owning(Probe::<71>::with(Mode::FailStart));
@@ -1244,6 +1284,9 @@ static SCENARIOS: &[Scenario] = scenarios![
     service_builder_register_unbounded,
     // join / failure
     join_after_stop_twice,
+    join_future_dropped_unpolled,
+    join_futures_awaited_in_reverse,
+    consume_after_dropped_join,
     join_failed_start,
     failed_start_detached,
     failed_start_builder_owning,
